@@ -4,7 +4,8 @@ built from the repository under check, compared with the reference semantics of 
 Never counted as proof. Two uses: (1) attach a failing input to an obligation the verifier has failed; (2) stand in, labelled
 *bounded*, for a function that has fallen out of the verifier's reach (rewritten with constructs Verus cannot take).
 """
-import os, re, json, subprocess, hashlib, random, shutil
+import os, re, sys, json, subprocess, hashlib, random, shutil
+sys.setrecursionlimit(max(sys.getrecursionlimit(), 6000))      # the reference parser recurses once per nesting level of the long corpus cases
 from . import oracle, corpus
 
 VERIF = os.path.dirname(os.path.dirname(os.path.abspath(__file__)))
@@ -40,15 +41,24 @@ def run_cases(cases, repo_src, script=False, small_stack=False):
     while todo:
         inp = '\n'.join(json.dumps(c) for c in todo) + '\n'
         args = [exe] + (['--script'] if script else []) + (['--small-stack'] if small_stack else [])
-        r = subprocess.run(args, input=inp, capture_output=True, text=True, timeout=300)
-        lines = [l for l in r.stdout.split('\n') if l.strip()]
+        hung = False
+        try:
+            r = subprocess.run(args, input=inp, capture_output=True, text=True, timeout=(300 if script else 90))
+            so = r.stdout
+        except subprocess.TimeoutExpired as e:
+            # the case after the last answer never returned (deadlock / non-termination): reported like a process death
+            so = e.stdout or ''
+            if isinstance(so, bytes): so = so.decode('utf-8', 'replace')
+            hung = True
+        lines = [l for l in so.split('\n') if l.strip()]
+        if hung and lines and not lines[-1].rstrip().endswith('}'): lines = lines[:-1]
         res = []
         for l in lines:
             try: res.append(json.loads(l))
             except Exception: res.append({'garbled': l})
         out += res
         if len(res) < len(todo):
-            out.append(None)                     # the case after the last answer killed the process
+            out.append({'panic': True, 'hang': True} if hung else None)      # the case after the last answer killed (or hung) the process
             if script:
                 out += [None] * (len(todo) - len(res) - 1)
                 break
@@ -113,12 +123,16 @@ def strict_eq(a, b):
     if a[0] == 'map': return len(a[1]) == len(b[1]) and all(strict_eq(x[0], y[0]) and strict_eq(x[1], y[1]) for x, y in zip(a[1], b[1]))
     return a == b
 
+def _numberish(s):
+    """the input contains a token that starts with a digit and is not a plain decimal literal (C09: such a literal is rejected, not truncated)"""
+    return any(not re.fullmatch(r'[0-9]+(\.[0-9]+)?', t) for t in re.findall(r'(?<![A-Za-z_.0-9])[0-9][0-9A-Za-z_.]*(?:[eE][+-][0-9A-Za-z_.]*)?', s))
+
 # ---- categories: each returns a list of discrepancy dicts
 def _disc(cat, props, case, expected, observed, why):
     return dict(category=cat, properties=props, case=case, expected=expected, observed=observed, why=why)
 
 def check_parse(repo_src, rnd, table=None, inputs=None):
-    ins = inputs if inputs is not None else (corpus.parse_cases() + corpus.corrupt(corpus.SEEDS + corpus.parse_cases()[:400], rnd, 1500) + corpus.random_parse_cases(rnd.randint(0, 10**6)))
+    ins = inputs if inputs is not None else (corpus.parse_cases() + corpus.long_parse_cases() + corpus.corrupt(corpus.SEEDS + corpus.parse_cases()[:400], rnd, 1500) + corpus.random_parse_cases(rnd.randint(0, 10**6)))
     ins = list(dict.fromkeys(ins))
     cases = [dict(m='rt', s=s) for s in ins]
     res = run_cases(cases, repo_src)
@@ -141,7 +155,7 @@ def check_parse(repo_src, rnd, table=None, inputs=None):
             if exp[0] == 'ok' and not r.get('ok'):
                 out.append(_disc('parse', ['C02', 'C05', 'C10'], c, exp[1], 'Err(%s)' % r.get('err'), 'a sentence of the documented grammar is rejected'))
             elif exp[0] == 'reject' and r.get('ok'):
-                out.append(_disc('parse', ['C05', 'C10'], c, 'Err (%s)' % exp[1], r.get('ast'), 'malformed input is accepted'))
+                out.append(_disc('parse', ['C05', 'C10'] + (['C09'] if _numberish(s) else []), c, 'Err (%s)' % exp[1], r.get('ast'), 'malformed input is accepted'))
             elif exp[0] == 'ok' and r.get('ast') != exp[1]:
                 out.append(_disc('parse', ['C02', 'C10', 'C09'], c, exp[1], r.get('ast'), 'the AST differs from the documented grouping / token text'))
         if r.get('ok') and exp is not None and exp[0] == 'ok':
@@ -160,7 +174,7 @@ def check_parse(repo_src, rnd, table=None, inputs=None):
     return out, len(cases)
 
 def check_exec(repo_src, rnd, inputs=None):
-    ins = list(dict.fromkeys(inputs if inputs is not None else (corpus.exec_cases() + corpus.random_exec_cases(rnd.randint(0, 10**6)))))
+    ins = list(dict.fromkeys(inputs if inputs is not None else (corpus.exec_cases() + corpus.boundary_exec_cases() + corpus.random_exec_cases(rnd.randint(0, 10**6)))))
     cases = [dict(m='exec', s=s) for s in ins]
     res = run_cases(cases, repo_src)
     out = []
@@ -171,7 +185,11 @@ def check_exec(repo_src, rnd, inputs=None):
             continue
         try:
             ast = oracle.parse(s)
-        except (oracle.Reject, oracle.Unknown, RecursionError):
+        except oracle.Reject as e:
+            if r.get('ok'):
+                out.append(_disc('exec', ['C05'] + (['C09'] if _numberish(s) else []), c, 'Err (%s)' % e, r.get('val'), 'malformed input is evaluated'))
+            continue
+        except (oracle.Unknown, RecursionError):
             continue
         ev = oracle.Ev()
         try:
@@ -270,6 +288,8 @@ def check_scripts(repo_src, rnd):
                 out.append(_disc('script', ['C08', 'C10'], case, ex[1], r.get('ast') or ('Err(%s)' % r.get('err')), 'a registration made after first use is not honoured by the tokenizer/parser'))
             elif ex[0] == 'reject' and r.get('ok'):
                 out.append(_disc('script', ['C05', 'C10'], case, 'Err', r.get('ast'), 'accepted'))
+            elif ex[0] == 'err' and r.get('ok'):
+                out.append(_disc('script', ['C07', 'C08', 'C03'], case, 'Err', r.get('val'), 'a failing context function does not fail the evaluation (its error was replaced by another handler or swallowed)'))
             elif ex[0] == 'table':
                 try: exp = oracle.dbg(oracle.parse(st[1], T))
                 except (oracle.Reject, oracle.Unknown): continue
@@ -278,7 +298,7 @@ def check_scripts(repo_src, rnd):
     return out, n
 
 CATS = {'parse': check_parse, 'exec': check_exec, 'conv': check_conv, 'script': check_scripts}
-PROP_CATS = {'C01': ['parse'], 'C02': ['parse', 'script'], 'C03': ['exec'], 'C04': ['exec', 'conv'], 'C05': ['parse'], 'C06': ['exec', 'script'], 'C07': ['exec'], 'C08': ['script', 'exec'],
+PROP_CATS = {'C01': ['parse', 'exec'], 'C02': ['parse', 'script'], 'C03': ['exec', 'script'], 'C04': ['exec', 'conv'], 'C05': ['parse'], 'C06': ['exec', 'script'], 'C07': ['exec', 'script'], 'C08': ['script', 'exec'],
              'C09': ['exec', 'parse'], 'C10': ['parse', 'script'], 'C12': ['parse'], 'C17': ['conv'], 'C18': ['parse']}
 _cache = {}
 def run_category(cat, repo_src, seed=0):
